@@ -117,7 +117,7 @@ func init() {
 	// ---------------------------------------------------------- sync
 	for _, n := range []string{"(*sync.Mutex).Lock", "(*sync.Mutex).Unlock", "(*sync.RWMutex).Lock", "(*sync.RWMutex).Unlock",
 		"(*sync.RWMutex).RLock", "(*sync.RWMutex).RUnlock", "(*sync.WaitGroup).Add", "(*sync.WaitGroup).Done", "(*sync.WaitGroup).Wait",
-		"(*sync.Cond).Signal", "(*sync.Cond).Broadcast", "(*sync.Pool).Put", "runtime.GC", "runtime.Gosched", "runtime.LockOSThread",
+		"(*sync.Cond).Signal", "(*sync.Cond).Broadcast", "runtime.GC", "runtime.Gosched", "runtime.LockOSThread",
 		"runtime.UnlockOSThread", "runtime.KeepAlive", "runtime.SetFinalizer", "os/signal.Notify", "runtime/debug.SetGCPercent"} {
 		reg(n, lockModel(n))
 	}
@@ -131,7 +131,23 @@ func init() {
 		ex.call(a[1], nil, nil)
 		return nil
 	})
+	// sync.Pool: a LIFO free list per pool - Get hands back the object most recently Put (what a single goroutine
+	// observes between garbage collections), else calls New.  State left in a pooled object is therefore visible
+	// to its next user, as it is at run time.
+	reg("(*sync.Pool).Put", func(ex *Exec, fn *ssa.Function, a []Value) Value {
+		c := a[0].(Ptr).cell
+		lst, _ := ex.env.side[c].([]Value)
+		ex.env.side[c] = append(lst, a[1])
+		return nil
+	})
 	reg("(*sync.Pool).Get", func(ex *Exec, fn *ssa.Function, a []Value) Value {
+		if c := a[0].(Ptr).cell; c != nil {
+			if lst, _ := ex.env.side[c].([]Value); len(lst) > 0 {
+				v := lst[len(lst)-1]
+				ex.env.side[c] = lst[:len(lst)-1]
+				return v
+			}
+		}
 		st := ptrStruct(a[0])
 		newFn := st[len(st)-1]
 		if cl, ok := newFn.(*Closure); ok && cl != nil {
